@@ -18,3 +18,4 @@ import TLX.Props.Translated.QuicDissect2
 import TLX.Props.Translated.TlsSess2
 import TLX.Props.Translated.Reasm2
 import TLX.Props.Translated.KeySched
+import TLX.Props.Translated.Builders
